@@ -105,14 +105,26 @@ def run_given(sub: Sub, tier: str, seed: int, stats: Stats, scale: float = 1.0) 
             best.offer(v)
             raise
 
-    try:
-        test()
-    except Violation as v:
-        return v
-    except HarnessError:
-        raise
-    except Exception as e:  # noqa: BLE001
-        return _finish(best, e)
+    from hypothesis.errors import Flaky
+
+    for attempt in (1, 2):
+        try:
+            test()
+        except Violation as v:
+            return v
+        except HarnessError:
+            raise
+        except Flaky as e:
+            # an error inside the harness that did not reproduce when Hypothesis replayed the case (no violation was seen):
+            # a transient environment problem (memory / file-system pressure while other campaigns run) - inconclusive, never a
+            # violation. The sub-check is run once more from the start; a second flake is reported as a harness error.
+            if best.v is not None or attempt == 2:
+                return _finish(best, e)
+            stats.extra["flaky_reruns"] = stats.extra.get("flaky_reruns", 0) + 1
+            continue
+        except Exception as e:  # noqa: BLE001
+            return _finish(best, e)
+        return None
     return None
 
 
